@@ -629,7 +629,7 @@ func (w *worker) scionDatagram(rc recipe, rq *reqRec, idx int, good scionHdr) (d
 		if rc.p1 >= 10 {
 			host = h.dstHost
 		}
-		raw, typ, same := hostForm(int(rc.p1%10), host, w.addrB, rc.p2)
+		raw, typ, same := hostForm(int(rc.p1%10), host, rq.other, rc.p2)
 		if rc.p1 >= 10 {
 			h.dstRaw, h.dstType = raw, typ
 		} else {
@@ -640,6 +640,17 @@ func (w *worker) scionDatagram(rc recipe, rq *reqRec, idx int, good scionHdr) (d
 		if rc.p2%4 == 3 {
 			inner.kind = 1
 		}
+	case rc.kind == 38:
+		// the genuine response followed by so many bytes that the datagram exceeds the client's
+		// receive buffer by p1 bytes (p1 <= 0: fits)
+		inner = recipe{kind: 0, p2: rc.p2}
+		pl, _ := w.build(inner, rq, idx)
+		base := len(buildSCION(h, pl))
+		pad := scionBufLen + int(rc.p1) - base
+		if pad < 0 {
+			pad = 0
+		}
+		return buildSCION(h, append(pl, make([]byte, pad)...)), true, inner
 	case rc.kind == 37:
 		host := h.srcHost
 		if rc.p1 >= 100 {
@@ -661,7 +672,7 @@ func (w *worker) scionDatagram(rc recipe, rq *reqRec, idx int, good scionHdr) (d
 		applyVariant(&h, rc.kind-40, rc.p2, rq.arrival, idx)
 	}
 	if inner.kind == 2 {
-		h.srcHost = w.addrB
+		h.srcHost = rq.other
 	}
 	pl, fromSrv := w.build(inner, rq, idx)
 	if !fromSrv {
@@ -705,7 +716,11 @@ func (w *worker) scionLoop() {
 		if !ok1 || !ok2 {
 			continue
 		}
-		rq := &reqRec{raw: append([]byte(nil), u.Payload...), arrival: arrival, addr: from}
+		rq := &reqRec{raw: append([]byte(nil), u.Payload...), arrival: arrival, addr: from,
+			server: srcHost.Unmap(), other: w.addrB, port: int(u.DstPort)}
+		if rq.server == w.addrB {
+			rq.other = w.addrA
+		}
 		var p ntp.Packet
 		_ = ntp.DecodePacket(&p, rq.raw)
 		rq.org, rq.rx, rq.tx = p.OriginTime, p.ReceiveTime, p.TransmitTime
@@ -720,6 +735,10 @@ func (w *worker) scionLoop() {
 		good := scionHdr{srcIA: scn.DstIA, dstIA: scn.SrcIA, srcHost: srcHost.Unmap(), dstHost: dstHost.Unmap(),
 			srcPort: u.DstPort, dstPort: u.SrcPort}
 		w.mu.Lock()
+		if w.lateMode {
+			theClock.jump.Store(int64(time.Hour))
+			rq.late = true
+		}
 		rq.s2c = w.s2c
 		if w.keSeq != w.keSeen {
 			rq.ke, w.keSeen = w.lastKE, w.keSeq
@@ -790,6 +809,11 @@ func genScriptSCION(r *lib.Rng, nts bool) []recipe {
 			case 2, 3:
 				// host addresses that resemble the queried server's (the client's) without being it
 				s[i] = recipe{kind: 36, p1: int64(r.Intn(nHostForms) + 10*lib.Pick(r, 0, 0, 1)), p2: int64(r.Intn(1 << 16))}
+			case 4:
+				if r.Intn(3) == 0 {
+					// around the size of the client's receive buffer: fits exactly, one byte more, much more
+					s[i] = recipe{kind: 38, p1: lib.Pick(r, int64(0), 1, 1, 2, 811, -1), p2: int64(r.Intn(1 << 16))}
+				}
 			case 1:
 				if r.Bool() {
 					s[i] = recipe{kind: 33, p1: lib.Pick(r, int64(0), 1, 20, 36, 60, 100), p2: int64(r.Intn(1 << 16))}
@@ -934,6 +958,14 @@ func scionKind(h histSpec) string {
 	switch {
 	case h.addrtype:
 		return "scion.addrtype"
+	case h.late && h.auth:
+		return "scion.lateauth"
+	case h.late:
+		return "scion.late"
+	case h.nofilter:
+		return "scion.nofilter"
+	case h.servers:
+		return "scion.servers"
 	case h.auth && h.nts:
 		return "scion.ntsauth"
 	case h.auth:
@@ -949,6 +981,9 @@ func (w *worker) runHistSCION(h histSpec, kind string) {
 	callLog := slog.New(errHandler{rec})
 	quiet := slog.New(nullHandler{})
 	c := &client.SCIONClient{Log: quiet, InterleavedMode: h.imode, Filter: rec}
+	if h.nofilter {
+		c.Filter, c.Log = nil, slog.New(&logRec{r: rec})
+	}
 	if h.auth {
 		c.Auth.Enabled = true
 		c.Auth.DRKeyFetcher = scion.NewFetcher(nil)
@@ -963,13 +998,15 @@ func (w *worker) runHistSCION(h histSpec, kind string) {
 	}
 	w.mu.Lock()
 	w.nts = h.nts
+	w.lateMode = h.late
 	w.keAnnounce = w.scionPort()
 	w.prevPkt, w.prevUID = nil, nil
 	w.mu.Unlock()
 	defer func() {
 		w.mu.Lock()
-		w.keAnnounce = 0
+		w.keAnnounce, w.lateMode, w.keTarget, w.keCookies = 0, false, 0, 0
 		w.mu.Unlock()
+		theClock.jump.Store(0)
 	}()
 	srvIA := serverIA
 	if h.sameIA {
@@ -989,6 +1026,10 @@ func (w *worker) runHistSCION(h histSpec, kind string) {
 		}
 		w.mu.Lock()
 		w.scripts, w.timeouts, w.reqs = op.scripts, op.timeouts, nil
+		w.keTarget, w.keCookies = op.keTarget, 0
+		if op.keOne {
+			w.keCookies = 1
+		}
 		w.mu.Unlock()
 		rec.mu.Lock()
 		rec.events = nil
@@ -1001,8 +1042,12 @@ func (w *worker) runHistSCION(h histSpec, kind string) {
 			}
 			ctx, cancel = context.WithTimeout(ctx, d)
 		}
+		srvHost := w.addrA
+		if op.server == 1 {
+			srvHost = w.addrB
+		}
 		la := udp.UDPAddr{IA: clientIA, Host: &net.UDPAddr{IP: net.IP(w.addrA.AsSlice())}}
-		ra := udp.UDPAddr{IA: srvIA, Host: &net.UDPAddr{IP: net.IP(w.addrA.AsSlice()), Port: 10123}}
+		ra := udp.UDPAddr{IA: srvIA, Host: &net.UDPAddr{IP: net.IP(srvHost.AsSlice()), Port: 10123}}
 		ps := []snet.Path{spath.Path{Src: clientIA, Dst: srvIA, DataplanePath: spath.Empty{},
 			NextHop: &net.UDPAddr{IP: net.IP(w.addrA.AsSlice()), Port: w.scionPort()}}}
 		done := make(chan struct{})
@@ -1031,6 +1076,7 @@ func (w *worker) runHistSCION(h histSpec, kind string) {
 		}
 		tick.Stop()
 		cancel()
+		theClock.jump.Store(0)
 		w.mu.Lock()
 		co.reqs = w.reqs
 		w.reqs = nil
